@@ -626,3 +626,27 @@ def ser_deserialize(ctx, mode):
         ctx.prove(r == ('UNGZ', 'dump.bin') and opened == [('dump.bin', 'rb')], 'C09+C06:O9.2.file-dump-read-from-the-dump-path', info=repr(opened))
     else:
         ctx.prove(users == [('dump.bin',)] and r == (None, 'e1', 'e0', 'cluster') and not opened, 'C09:O9.2.user-deserializer-gets-the-dump-path')
+
+
+@unit(name='serializer.init', relpath=SMOD, qual=['Serializer.__init__'], props=['C09', 'C06'],
+      doc='the constructor establishes what the serializer units start from: no dump in progress (pid 0), id 0, no outgoing transfers, no incoming '
+          'transfer, no in-memory dump; fork is used only when requested, available and no user serializer is given')
+def ser_init(ctx):
+    mod = source.load(SMOD)
+    fn, ci = mod.find('Serializer.__init__')
+    ser = ctx.alloc(PObj('Serializer', {}))
+    want_fork, has_fork = FreshBool('tryUseFork'), FreshBool('osHasFork')
+    user_ser = Opt(FreshBool('noUserSerializer'), Callable_('user:serializer'))
+    I = Interp(ctx, externals={'hasattr': lambda I_, a, k: has_fork})
+    I.cur_mod = mod
+    B = FreshInt('batch')
+    I.call_funcdef(fn, mod, 'Serializer', ser, ['dump.bin', B, want_fork, user_ser, None, None], {}, None, 'Serializer.__init__')
+    f = ctx.cell(ser).fields
+    ctx.prove(f.get(SF('pid')) == 0 and f.get(SF('currentID')) == 0, 'C09+C06:init.no-dump-in-progress')
+    tx = f.get(SF('transmissions'))
+    txc = ctx.cell(tx) if isinstance(tx, Ref) else None
+    ctx.prove(txc is not None and len(getattr(txc, 'items', None) or getattr(txc, 'entries', None) or []) == 0, 'C09:init.no-outgoing-transfers')
+    ctx.prove(f.get(SF('incomingTransmissionFile')) is None and f.get(SF('inMemorySerializedData')) is None, 'C09:init.no-incoming-transfer-no-dump')
+    ctx.prove(f.get(SF('fileName')) == 'dump.bin' and f.get(SF('transmissionBatchSize')) is B, 'C09:init.configuration-kept')
+    uf = I.truth_expr(f.get(SF('useFork')))
+    ctx.prove(Iff(uf, And(want_fork, has_fork, user_ser.isnone)), 'C09+C06:init.fork-only-when-requested-available-and-no-user-serializer')
